@@ -212,6 +212,11 @@ pub fn reg_event(uid: Uid, call: RegCall, ok: bool, injected: bool) {
         if ok && matches!(call, RegCall::Register | RegCall::Reregister) {
             s.sparse_sub_ids = false;
         }
+        if call == RegCall::Unregister && s.synth_owed {
+            // nothing can be demanded for an unregistered source; the loop may still hold the event
+            s.synth_owed = false;
+            s.synth_maybe = true;
+        }
         match call {
             RegCall::Register | RegCall::Reregister if ok => s.registered = true,
             RegCall::Unregister => s.registered = false,
@@ -329,6 +334,12 @@ pub fn synth_delivered(uid: Uid) {
             // announced in an earlier dispatch that failed before the wait: delivered now
             s.synth_owed = false;
             w.count("synthetic_delivered_after_failed_dispatch");
+            return;
+        }
+        if !s.life.synth_returned && s.synth_maybe {
+            // a leftover of a failed dispatch reached the wrapper after it had been unregistered and registered again
+            s.synth_maybe = false;
+            w.count("synthetic_leftover_delivered_after_reregistration");
             return;
         }
         s.life.synth_delivered += 1;
